@@ -384,6 +384,7 @@ pub fn handle(req: &J) -> J {
     {
         let mut s = shared.borrow_mut();
         s.want_trace = wants("trace");
+        s.want_executed = wants("executed");
         s.want_folds = wants("class_folds");
         // the declared minimum gas of the instruction at each offset, read from our own disassembly of the code: the
         // monitor adds these up along every path, independently of the VM's gas counter
